@@ -54,7 +54,7 @@ def run(tier, replay):
         rec = parsed[ln - 1]
         R.violation(sig, f"line {ln}: {json.dumps({k: rec[k] for k in rec if k != 'st'})}", tokcommon.history_upto(lines, ln))
     st_hits = None
-    if not replay:
+    if not replay and not R.violations:
         def mutate(ps):
             for i, r in enumerate(ps):
                 if r["a"] == "verify" and "Revoked" in r["res"]:
